@@ -92,13 +92,14 @@ def run(chk: Check, tier: str):
     finally:
         cleanup(work)
     # the copies between the byte sequences of a frame as the instructions perform them (memory <- return data at an offset,
-    # memory <- code past its end, the output area of a call with short return data): Evm.tla's flat byte sequences are the reference
+    # memory <- code past its end, the output area of a call with short return data, memory <- a window of calldata whose word
+    # the path has pinned to a constant): Evm.tla's flat byte sequences are the reference
     from harness import probes
     from harness.e1corpus import run_items
 
     from .c01 import judge
 
-    items = [it for it in probes.c01_probes() if it.key.startswith(("probe:returndatacopy-offset", "probe:codecopy-past-end", "probe:extcodecopy-no-code", "probe:short-re"))]
+    items = [it for it in probes.c01_probes() if it.key.startswith(("probe:returndatacopy-offset", "probe:codecopy-past-end", "probe:extcodecopy-no-code", "probe:short-re", "probe:calldatacopy-window"))]
     judge(chk, run_items(items, chk, witnesses=False))
     chk.cov["instruction_level_copy_probes"] = len(items)
 
